@@ -203,7 +203,8 @@ def _normalisation_note(ctx: "Ctx") -> T.Dict[str, T.Any]:
     return {"what": "functions not in the pinned tree's function list are expanded at their call sites before analysis (sa/normalise.py); renamed functions get their old name back",
             "expanded_call_sites": {m: mod.expanded_calls for m, mod in ctx.prog.modules.items() if mod.expanded_calls},
             "helpers_dropped": list(normalise.LAST_RUN.get("dropped", [])),
-            "renames_undone": list(normalise.LAST_RUN.get("renames_undone", []))}
+            "renames_undone": list(normalise.LAST_RUN.get("renames_undone", [])),
+            "table_dispatch_expanded": normalise.LAST_RUN.get("dispatch_expanded", 0)}
 
 
 def write_evidence(ctx: Ctx, mod: T.Any, wall: float, known_matched: T.List[str], new: T.List[Finding],
